@@ -49,7 +49,7 @@ def f_squash(method, x, r, x0, base):
 def gen_array(rng, np, signed=False):
     shape = rng.choice([(), (1,), (rng.randint(2, 7),), (rng.randint(1, 4), rng.randint(1, 4)), (2, 2, rng.randint(1, 3))])
     if rng.random() < 0.03:
-        shape = rng.choice([(rng.randint(100, 600),), (rng.randint(10, 30), rng.randint(10, 30))])      # scale-up slice (quantiles, outliers)
+        shape = rng.choice([(rng.randint(100, 600),), (rng.randint(10, 30), rng.randint(10, 30)), (200, 200), (8, 2500), (33000,)])      # scale-up slice (quantiles, outliers, block-wise evaluation)
     n = 1
     for s in shape:
         n *= s
